@@ -130,3 +130,68 @@ Example C01_loop_nonvacuous :
   | None => False
   end.
 Proof. vm_compute. split; reflexivity. Qed.
+
+(* ---- ordering of the outputs: the axis values Baseline2D.individual_axes hands to the inner 1-D
+   fitters (C01/AxisOrder.v; tied to the source by the recorded-constructor correspondence of
+   harness/c01.py on every run).  The 2-D object stores x_user[sort_order]; the data are NOT sorted
+   (skip_sorting=True), so the caller's axis values have to be rebuilt. *)
+From PB Require Import lib.Perm lib.PermProofs C01.AxisOrder C01.AxisOrderProofs.
+
+(* stored[inverted_order] is the caller's array: every permutation, every array (ties allowed) *)
+Theorem C01_rebuild_inverted_is_user : forall (A : Type) (d : A) (x : list A) (s : list nat) (n : nat),
+  is_perm s n -> List.length x = n -> gather d (gather d x s) (inverted_sort s) = x.
+Proof. exact @rebuild_inverted_is_user. Qed.
+Print Assumptions C01_rebuild_inverted_is_user.
+
+(* the model of individual_axes (three branches of the source + _determine_sorts + the stable argsort)
+   hands the caller's x and z to the inner fitters, for ALL axis values of any length *)
+Theorem C01_individual_axes_values_user : forall (x z : list Z), exists b, individual_axes_values x z = (x, z, b).
+Proof. exact individual_axes_values_user. Qed.
+Print Assumptions C01_individual_axes_values_user.
+
+(* assume_sorted=True reaches the inner fitters only if both axes are sorted *)
+Theorem C01_individual_axes_assume_sorted : forall (x z : list Z),
+  snd (individual_axes_values x z) = true -> argsort x = seq 0 (List.length x) /\ argsort z = seq 0 (List.length z).
+Proof. exact individual_axes_assume_sorted. Qed.
+Print Assumptions C01_individual_axes_assume_sorted.
+
+(* so the inner fitters sort the user-ordered rows / columns by the sorting permutation of the axis *)
+Theorem C01_inner_order : forall (x z : list Z),
+  inner_sort_order (fst (fst (individual_axes_values x z))) = argsort x /\
+  inner_sort_order (snd (fst (individual_axes_values x z))) = argsort z.
+Proof. exact inner_order_inverted. Qed.
+Print Assumptions C01_inner_order.
+
+(* indexing the stored values with the FORWARD order instead is right exactly when the sorting
+   permutation is its own inverse (sorted or fully reversed axes ...), for distinct values *)
+Theorem C01_rebuild_forward_iff_involution : forall (A : Type) (d : A) (x : list A) (s : list nat) (n : nat),
+  NoDup x -> is_perm s n -> List.length x = n ->
+  (gather d (gather d x s) s = x <-> gather 0%nat s s = seq 0 n).
+Proof. exact @rebuild_forward_iff_involution. Qed.
+Print Assumptions C01_rebuild_forward_iff_involution.
+
+(* ... and then the inner fitter sorts the user-ordered data by inverted_order instead of sort_order *)
+Theorem C01_inner_order_forward : forall (x : list Z), NoDup x ->
+  inner_sort_order (gather 0%Z (gather 0%Z x (argsort x)) (argsort x)) = inverted_sort (argsort x).
+Proof. exact inner_order_forward. Qed.
+Print Assumptions C01_inner_order_forward.
+
+(* witness: an axis rotated by one position; forward indexing hands [3;1;2] to the inner fitter *)
+Example C01_forward_rebuild_refuted : exists x z : list Z,
+  NoDup x /\ fst (fst (individual_axes_values_forward x z)) <> x /\ fst (fst (individual_axes_values x z)) = x.
+Proof.
+  exists [2; 3; 1]%Z, [1; 2]%Z. destruct forward_differs_example as [-> ->]. cbn [fst].
+  split; [|split; [discriminate|reflexivity]].
+  repeat constructor; cbn [In]; intros H; repeat (destruct H as [H|H]; [discriminate|]); exact H.
+Qed.
+Print Assumptions C01_forward_rebuild_refuted.
+
+(* the hypotheses are satisfiable: a rotation is a permutation that is not an involution *)
+Example C01_axis_order_nonvacuous :
+  is_perm [2; 0; 1]%nat 3 /\ gather 0%nat [2; 0; 1]%nat [2; 0; 1]%nat <> seq 0 3 /\ argsort [2; 3; 1]%Z = [2; 0; 1]%nat.
+Proof.
+  split; [|split; [vm_compute; discriminate|vm_compute; reflexivity]].
+  unfold is_perm. cbn [seq]. apply Permutation.Permutation_sym.
+  apply Permutation.perm_trans with [0; 2; 1]%nat; [apply Permutation.perm_skip, Permutation.perm_swap|].
+  apply Permutation.perm_trans with [2; 0; 1]%nat; [apply Permutation.perm_swap|apply Permutation.Permutation_refl].
+Qed.
